@@ -7,7 +7,7 @@ CONSTANTS
   Roa <- GenRoa
   AspaDefs <- NoAspa
   ParentOf <- GenChain
-  Ops = {"res", "roa", "refresh"}
+  Ops = {"res", "roa", "refresh", "map"}
   Depth = 30
   MaxApiStreak = 2
   MaxDestr = 1
